@@ -210,7 +210,7 @@ def encode_matrix(rng, v, M):
         return ['rowarrays', 'int' if v.endswith('int') else 'float', M]
     if v in ('rowdicts', 'rowdicts_zeros'):
         rows = [[(0, j, M[i][j]) for j in range(nc) if M[i][j] != 0] for i in range(nr)]
-        if v == 'rowdicts_zeros' or not any(rows):
+        if v == 'rowdicts_zeros':
             for i, j, x in some_zeros():
                 rows[i].append((0, j, x))
         return ['rowdicts', rows]
@@ -834,32 +834,5 @@ def shrink(c):
             yield dict(c, fasta=None)
 
 
-# ---------------------------------------------------------------- known findings
-def _ctor_default(c):
-    return c.get('kind') == 'ctor' and not c.get('profile')
-
-
-def sig_f29(c, io, mo, fails):
-    """coordinate forms: an index beyond the id count is scipy's ValueError, not TableException"""
-    return (_ctor_default(c) and c['inp'][0] in ('triples', 'dict') and io == ['err', 5]
-            and any(e[0] >= len(c['oids']) or e[1] >= len(c['sids']) for e in entries_of(c['inp'])))
-
-
-def sig_f31(c, io, mo, fails):
-    """a list of empty row dicts: ValueError from max() of an empty sequence"""
-    return (c.get('kind') in ('ctor', 'forms') and io in (['err', 5],) and c.get('inp', [None])[0] == 'rowdicts'
-            and not any(c['inp'][1]))
-
-
-def sig_f32(c, io, mo, fails):
-    """metadata whose entries are all falsy non-mappings (e.g. ['', 0]) is accepted as None"""
-    if not _ctor_default(c) or io[0] != 'ok':
-        return False
-    for md, ids in ((c['omd'], c['oids']), (c['smd'], c['sids'])):
-        if md is not None and len(md) == len(ids) and all(not m for m in md) \
-                and any(m is not None and not isinstance(m, dict) for m in md):
-            return True
-    return False
-
-
-SIGNATURES = {'F29': sig_f29, 'F31': sig_f31, 'F32': sig_f32}
+# no known findings: F29, F31, F32 were repaired (their witnesses stay in corpus/C17 as regression cases)
+SIGNATURES = {}
